@@ -454,6 +454,20 @@ func ruleSegmentIDs(r *Run, rule string, k *storeKind) {
 	}
 	okMax := false
 	if store != nil {
+		// running maximum through the builtin: m = max(m, parsed id)
+		if ph, ok := store.Call.Args[1].(*ssa.Phi); ok {
+			for _, e := range ph.Edges {
+				if call, ok := e.(*ssa.Call); ok {
+					if b, isB := call.Call.Value.(*ssa.Builtin); isB && b.Name() == "max" && len(call.Call.Args) == 2 {
+						a0, a1 := call.Call.Args[0], call.Call.Args[1]
+						parsed := func(v ssa.Value) bool { return phiLeafContains(ci, v, "strconv.ParseUint(", 4) || parsedByHelper(w, v) != nil }
+						if (a0 == ssa.Value(ph) && parsed(a1)) || (a1 == ssa.Value(ph) && parsed(a0)) {
+							okMax = true
+						}
+					}
+				}
+			}
+		}
 		if ph, ok := store.Call.Args[1].(*ssa.Phi); ok {
 			// argmax shape: phi of (max, id) controlled by id > max
 			allInstrs(initFn, func(in ssa.Instruction) {
@@ -593,45 +607,88 @@ func ruleOpenIsLazy(r *Run, rule string, k *storeKind) {
 		v := resultValue(ret, errIndex(fn))
 		src := "constant message"
 		ok := true
-		if call, isCall := v.(*ssa.Call); isCall && calleeName(call.Common()) == "fmt.Errorf" {
-			// find an error-typed vararg
-			if sl, isSl := call.Call.Args[1].(*ssa.Slice); isSl {
-				if arr, isArr := sl.X.(*ssa.Alloc); isArr {
-					for _, ref := range *arr.Referrers() {
-						if ia, isIA := ref.(*ssa.IndexAddr); isIA {
-							for _, rr := range *ia.Referrers() {
-								if st, isSt := rr.(*ssa.Store); isSt {
-									val := st.Val
-									for {
-										if mi, isMI := val.(*ssa.MakeInterface); isMI {
-											val = mi.X
-											continue
-										}
-										if ch, isCh := val.(*ssa.ChangeInterface); isCh {
-											val = ch.X
-											continue
-										}
-										break
-									}
-									if !types.Identical(val.Type(), errorType) {
-										continue
-									}
-									ok = false
-									src = "an error of unknown origin"
-									if ex, isEx := val.(*ssa.Extract); isEx {
-										if c2, isC := ex.Tuple.(*ssa.Call); isC {
-											g := staticCallee(c2.Common())
-											src = "error of " + shortCallee(c2.Common())
-											ok = g != nil && allowed[fnShortName(g)]
+		// origin of the returned error, through wrapping (fmt.Errorf … %w) and joins (phis): every leaf is a message
+		// built on the spot, or the error of provider creation / directory listing / a check that touches no file
+		var origin func(val ssa.Value, depth int) bool
+		origin = func(val ssa.Value, depth int) bool {
+			for {
+				if mi, isMI := val.(*ssa.MakeInterface); isMI {
+					val = mi.X
+					continue
+				}
+				if ch, isCh := val.(*ssa.ChangeInterface); isCh {
+					val = ch.X
+					continue
+				}
+				break
+			}
+			if depth > 6 {
+				src = "an error of unknown origin"
+				return false
+			}
+			switch x := val.(type) {
+			case *ssa.Const:
+				return true
+			case *ssa.Phi:
+				for _, e := range x.Edges {
+					if e != val && !origin(e, depth+1) {
+						return false
+					}
+				}
+				return true
+			case *ssa.Extract:
+				if c2, isC := x.Tuple.(*ssa.Call); isC {
+					return origin(c2, depth+1)
+				}
+			case *ssa.Call:
+				switch calleeName(x.Common()) {
+				case "errors.New":
+					return true
+				case "fmt.Errorf":
+					if len(x.Call.Args) < 2 {
+						return true
+					}
+					if sl, isSl := x.Call.Args[1].(*ssa.Slice); isSl {
+						if arr, isArr := sl.X.(*ssa.Alloc); isArr {
+							for _, ref := range *arr.Referrers() {
+								if ia, isIA := ref.(*ssa.IndexAddr); isIA {
+									for _, rr := range *ia.Referrers() {
+										if st, isSt := rr.(*ssa.Store); isSt {
+											a := st.Val
+											for {
+												if mi, isMI := a.(*ssa.MakeInterface); isMI {
+													a = mi.X
+													continue
+												}
+												if ch, isCh := a.(*ssa.ChangeInterface); isCh {
+													a = ch.X
+													continue
+												}
+												break
+											}
+											if types.Identical(a.Type(), errorType) && !origin(a, depth+1) {
+												return false
+											}
 										}
 									}
 								}
 							}
 						}
 					}
+					return true
 				}
+				g := staticCallee(x.Common())
+				if g != nil && (allowed[fnShortName(g)] || (g.Pkg == w.SPkg && !touchesFiles(w, g, 3, map[*ssa.Function]bool{}))) {
+					src = "error of " + shortCallee(x.Common())
+					return true
+				}
+				src = "error of " + shortCallee(x.Common())
+				return false
 			}
+			src = "an error of unknown origin"
+			return false
 		}
+		ok = origin(v, 0)
 		r.Check(ok, rule, fmt.Sprintf("open:error#%d", i), w.InstrPos(ret)+" "+w.Name(fn), "Open fails only for: "+src, "Open can fail because of "+src+" — a per-segment step must not make the directory unopenable")
 	}
 	// no error return inside the per-segment loop
@@ -659,12 +716,7 @@ func ruleSegmentLoad(r *Run, p string, k *storeKind) {
 	r.Doc(p+".SKIP", "a damaged segment makes every search fail")
 	r.Doc(p+".WHOLE", "a partially decoded / truncated segment is cached and answers searches")
 	// SKIP: in the per-segment goroutine of Execute, a getIndex / search error ends the goroutine without reporting
-	var seg *ssa.Function
-	for _, fn := range w.Funcs {
-		if fn.Parent() == k.Execute && len(callsIn(fn, func(cc *ssa.CallCommon) bool { return staticCallee(cc) == k.GetIndex })) > 0 {
-			seg = fn
-		}
-	}
+	seg := segmentSearchFn(w, k)
 	if seg == nil {
 		r.Unres(p+".SKIP", "skip:closure", "per-segment search closure not found")
 	} else {
@@ -820,7 +872,12 @@ func ruleWhoMayWriteFiles(r *Run, rule string, k *storeKind) {
 			}
 			n++
 			name := w.Name(fn)
-			okFn := allow[name]
+			// closures (deferred cleanups) belong to the function that contains them
+			top := fn
+			for top.Parent() != nil {
+				top = top.Parent()
+			}
+			okFn := allow[name] || allow[w.Name(top)]
 			if name == "newStorageProvider" && cn != "os.MkdirAll" {
 				okFn = false
 			}
@@ -1293,6 +1350,51 @@ func deferredCalls(fn *ssa.Function) []*ssa.Defer {
 		}
 	})
 	return out
+}
+
+// touchesFiles: g (or a same-package callee, bounded depth) calls into os, io or a compression package, decodes an index, or
+// makes a dynamic call whose target is unknown.
+func touchesFiles(w *World, g *ssa.Function, depth int, seen map[*ssa.Function]bool) bool {
+	if seen[g] {
+		return false
+	}
+	seen[g] = true
+	hit := false
+	allInstrs(g, func(in ssa.Instruction) {
+		ci, ok := in.(ssa.CallInstruction)
+		if !ok || hit {
+			return
+		}
+		cm := ci.Common()
+		if cm.IsInvoke() {
+			switch cm.Method.Name() {
+			case "Error", "String":
+			default:
+				hit = true
+			}
+			return
+		}
+		h := staticCallee(cm)
+		if h == nil {
+			if _, isB := cm.Value.(*ssa.Builtin); !isB {
+				hit = true
+			}
+			return
+		}
+		if h.Pkg != nil && h.Pkg != w.SPkg {
+			switch h.Pkg.Pkg.Path() {
+			case "os", "io", "io/fs", "io/ioutil", "compress/gzip", "path/filepath", "syscall", "bufio":
+				hit = true
+			}
+			return
+		}
+		if h.Pkg == w.SPkg {
+			if depth == 0 || touchesFiles(w, h, depth-1, seen) {
+				hit = true
+			}
+		}
+	})
+	return hit
 }
 
 // closeGate describes the test-and-set of the closed flag that guards Close.
